@@ -26,6 +26,10 @@ size_t hx_dump_tx(char *buf, size_t n);               /* canonical dump of the t
 void hx_emit_trace(void);                             /* T line for E1 */
 void hx_emit_ledger_violations(const char *prop);     /* lock/thread ledger events as violations */
 const char *hx_hex(const uint8_t *p, size_t n);       /* static buffer ring */
+void hx_symtab_load(void);                            /* parent, before the pool is created */
+const char *hx_sym(uintptr_t pc);
+extern int hx_san_last_was_write;                     /* set by hx_emit_san_events: memory may be corrupted */
+int hx_emit_san_events(const char *what);             /* sanitizer reports since the last call -> violations; returns count */
 
 extern volatile _Bool bidib_running, bidib_discard_rx, bidib_seq_num_enabled, bidib_lowlevel_debug_mode;
 #endif
